@@ -1625,6 +1625,25 @@ func (e *Engine) verifyCase(fn *ssa.Function, c *Contract, cs *Case, res *FuncRe
 		if len(c.Witness) > 0 {
 			look := e.localLookup(r, fn)
 			for _, w := range c.Witness {
+				if i := strings.Index(w.Local, "."); i > 0 && !strings.HasPrefix(w.Local, "callee ") {
+					// a field path on the CURRENT value of a local or parameter, e.g.
+					// m.Tags for a by-value parameter the function assigns to
+					base, ok := look(w.Local[:i])
+					if !ok {
+						if !hasLocal(fn, w.Local[:i]) {
+							sfail("witness %s: the function has no local variable %s (contract no longer matches the source)", w.Name, w.Local[:i])
+						}
+						wt := e.resolveType(pkgOf(fn), w.Type)
+						penv.vars[w.Name] = wrapTyped(e.zeroValue(wt), wt)
+						continue
+					}
+					x, err := parseSpec("witnessbase" + w.Local[i:])
+					if err != nil {
+						sfail("witness %s: %v", w.Name, err)
+					}
+					penv.vars[w.Name] = e.evalSpec(penv.with("witnessbase", base), x)
+					continue
+				}
 				v, ok := look(w.Local)
 				if strings.HasPrefix(w.Local, "callee ") {
 					// re-export of the witness of a callee's contract (last call)
